@@ -7,6 +7,7 @@ the batch timer firing at any moment.
 import Otel.C01.Lemmas3
 import Otel.C01.Progress
 import Otel.C01.Spec
+import Otel.C01.HistorySim
 namespace Otel.C01
 
 variable {cap maxB : Nat} {blocking : Bool}
@@ -176,6 +177,101 @@ def demoSchedule : List Lbl :=
 
 example : ∃ s, run (init 2 2 false) demoSchedule = some s ∧ s.exported = [[1, 2], [4]] ∧ s.droppedIds = [3] ∧
     s.sdRetOk = true ∧ s.ffs.any (fun f => f.ph == .retOk && f.pre == [4, 3, 2, 1]) = true := by
+  refine ⟨_, rfl, ?_⟩
+  decide
+
+/-! ### The model's histories pass the run-time history oracle
+
+The free-running stress leg records a history of `Spec.Ev` events from the real code and the driver judges it
+with `Spec.histCheck` (through `Spec.histJudge`). `emit` (History.lean) stamps the same events on the steps of
+the LTS; `ReachableH cap maxB blocking s h` says that the model can reach `s` producing the history `h`. -/
+
+/-- the scanner of the history oracle, run over any history `h` of the model, mirrors the model's ghost state
+(`Sim`, HistorySim.lean): its exporter log is `s.exported`, "inside the exporter" is `s.busy.isSome`, its set of
+ended spans is `s.seen`, its `pre` sets of the ForceFlush calls and of Shutdown are the model's, "Shutdown
+called / returned nil / exporter shut down" agree with `s.sd` / `s.sdRetOk`, **its list of violated clauses is
+empty**, and its F22 flag is raised only if Shutdown has been called and some ForceFlush took an early exit.
+`dropped` is the value of the processor's dropped counter reported at the end of the run: any number that is at
+least the number of spans the model dropped. -/
+theorem bsp_model_history_simulation (hpos : 1 ≤ maxB) (s : St) (h : List Spec.Ev)
+    (hr : ReachableH cap maxB blocking s h) (dropped : Nat) (hd : s.droppedIds.length ≤ dropped) :
+    Sim s (h.foldl (Spec.scanStep s.blocking dropped) {}) := by
+  rw [(reachable_cfg hr.reachable).2.2]
+  exact sim_reachableH hpos dropped s h hr hd
+
+/-- S1–S6 at the level of histories — every history `h` the model can produce passes the very oracle
+`Spec.histCheck` that judges the histories recorded from the real code: the list of violated clauses is empty.
+Arguments of the oracle: `s.maxB`, `s.blocking` = the configuration; `dropped` = the dropped counter reported
+at the end of the run (any value ≥ the number of spans the model dropped; the real counter is exact);
+`allEnded := s.accepted` = every sampled span id whose `OnEnd` passed the `stopped` check (a superset of the
+ids whose `End` returned); `allUnsampled := []` (unsampled spans are not modelled: the processor discards them
+before touching shared state); `h` = the history. -/
+theorem bsp_model_history_passes_oracle (hpos : 1 ≤ maxB) (s : St) (h : List Spec.Ev)
+    (hr : ReachableH cap maxB blocking s h) (dropped : Nat) (hd : s.droppedIds.length ≤ dropped) :
+    (Spec.histCheck s.maxB s.blocking dropped s.accepted [] h).1 = [] := by
+  have hsim := bsp_model_history_simulation hpos s h hr dropped hd
+  have hreach := hr.reachable
+  have h1 := bsp_no_duplicate hpos s hreach
+  have h2 := bsp_batch_bound hpos s hreach
+  have h6 := bsp_only_ended_sampled hpos s hreach
+  simp only [Spec.histCheck, hsim.batches, hsim.bad, h1, h2, h6, if_true]
+  simp
+
+/-- the same with exactly the arguments the driver passes (`Spec.histJudge`, used by Main.lean): the sets of
+ended sampled / unsampled ids are read off the history itself, so S6 is judged against the `ended` events
+only — every exported span has an `ended` event in the history. -/
+theorem bsp_model_history_passes_driver_oracle (hpos : 1 ≤ maxB) (s : St) (h : List Spec.Ev)
+    (hr : ReachableH cap maxB blocking s h) (dropped : Nat) (hd : s.droppedIds.length ≤ dropped) :
+    (Spec.histJudge s.maxB s.blocking dropped h).1 = [] := by
+  have hsim := bsp_model_history_simulation hpos s h hr dropped hd
+  have hreach := hr.reachable
+  have h1 := bsp_no_duplicate hpos s hreach
+  have h2 := bsp_batch_bound hpos s hreach
+  have hG := invG_reachable hreach
+  have hended := scan_ended s.blocking dropped h {}
+  rw [hsim.ended] at hended
+  have h6 : Spec.onlyEnded s.exported (Spec.endedIds h) = true := by
+    simp only [Spec.onlyEnded, List.all_eq_true, List.contains_iff_mem]
+    intro a ha
+    have : a ∈ s.seen := hG a (Or.inr (Or.inr (Or.inr (Or.inl ha))))
+    rw [hended] at this
+    simpa using this
+  simp only [Spec.histJudge, Spec.histCheck, hsim.batches, hsim.bad, h1, h2, h6, if_true,
+    (reachableH_no_unsampled hr).1]
+  simp
+
+/-- known finding F22 at the level of histories — the oracle raises its F22 flag on a history of the model only
+if that history contains the `sdCalled` event (a Shutdown had been called before the ForceFlush returned) and
+the model took one of ForceFlush's two early exits (`F22_applies`). All other ForceFlush returns pass the
+delivery check (previous theorems). -/
+theorem bsp_model_history_f22_only_with_shutdown (hpos : 1 ≤ maxB) (s : St) (h : List Spec.Ev)
+    (hr : ReachableH cap maxB blocking s h) (dropped : Nat) (hd : s.droppedIds.length ≤ dropped)
+    (allEnded allUnsampled : List Nat)
+    (hf : (Spec.histCheck s.maxB s.blocking dropped allEnded allUnsampled h).2 = true) :
+    Spec.Ev.sdCalled ∈ h ∧ ∃ f ∈ s.ffs, F22_applies f = true := by
+  have hsim := bsp_model_history_simulation hpos s h hr dropped hd
+  simp only [Spec.histCheck] at hf
+  refine ⟨?_, ?_⟩
+  · rcases scan_sdCalled _ _ h {} (hsim.f22 hf) with hc | hc
+    · simp at hc
+    · exact hc
+  · obtain ⟨f, hfm, hph⟩ := hsim.f22e hf
+    exact ⟨f, hfm, by simp [F22_applies, hph]⟩
+
+/-- non-vacuity: the history of `demoSchedule` — two exporter calls, a ForceFlush and a Shutdown that returned
+nil, one dropped span — and the oracle's verdict on it. -/
+example : ∃ r, runH (init 2 2 false) [] demoSchedule = some r ∧
+    r.2 = [.ended 1, .ended 2, .ended 3, .exportStart [1, 2], .exportEnd, .ended 4, .ffCalled 1,
+           .exportStart [4], .exportEnd, .ffReturned 1 true, .sdCalled, .expShutdownStart, .expShutdownEnd,
+           .sdReturned true] ∧
+    r.1.droppedIds.length = 1 ∧ Spec.histJudge 2 false 1 r.2 = ([], false) := by
+  refine ⟨_, rfl, ?_⟩
+  decide
+
+/-- non-vacuity for F22: the history of `f22Schedule` raises the oracle's F22 flag (and nothing else). -/
+example : ∃ r, runH (init 4 1 false) [] f22Schedule = some r ∧
+    r.2 = [.ended 1, .ended 2, .exportStart [1], .sdCalled, .ffCalled 7, .ffReturned 7 true] ∧
+    Spec.histJudge 1 false 0 r.2 = ([], true) := by
   refine ⟨_, rfl, ?_⟩
   decide
 
